@@ -35,7 +35,7 @@ CONFIG = {
 REQUIRED = ['mixed_batches_checked', 'fast_gradient_called_before_predict', 'bolfi_surrogate_order_permuted', 'bolfi_sampling_phases', 'bolfi_second_phase_after_update', 'bolfi_logpdf_points', 'bolfi_fast_predict_checked',
             'bolfi_fast_gradient_checked', 'contract_logpdf', 'contract_predict', 'gps_fitted', 'logpdf_definition_checked', 'logpdf_outside_checked', 'logpdf_on_bound_checked', 'gradient_checked',
             'fastpath_predict_checked', 'fastpath_gradient_checked', 'evidence_order_checked', 'fast_after_update_without_slow_call',
-            'shape_scalar_or_1d', 'shape_2d', 'far_tail_gradient_checked', 'default_threshold']
+            'shape_scalar_or_1d', 'shape_2d', 'far_tail_gradient_checked', 'default_threshold', 'gradient_integer_typed_checked']
 
 
 def gen_cases(ctx):
@@ -414,6 +414,15 @@ def run_case(ctx, case):
                         raise Violation('gradient-not-finite', 'gradient_logpdf is %r where logpdf is finite (%r)' % (gq, f(x)), {'x': x})
                     if np.all(np.isfinite(num)) and not np.allclose(gq, num, rtol=1e-3, atol=1e-4 * (1 + np.abs(num).max())):
                         raise Violation('gradient', 'gradient_logpdf %r, Richardson difference of logpdf %r' % (gq, num), {'x': x})
+                    # the same at an integer-TYPED query (np.array([0, 1])): the nearest lattice point when it is interior too
+                    xi = np.round(x)
+                    if np.minimum(xi - lo, hi - xi).min() > 100 * h:
+                        gqi = np.ravel(post.gradient_logpdf(xi.astype(np.int64) if d > 1 else xi.astype(np.int64).reshape(1)))
+                        numi = richardson(f, xi, h)
+                        ctx.event('gradient_integer_typed_checked')
+                        if np.all(np.isfinite(numi)) and not np.allclose(gqi, numi, rtol=1e-3, atol=1e-4 * (1 + np.abs(numi).max())):
+                            raise Violation('gradient', 'gradient_logpdf at the integer-typed point %r is %r, Richardson difference of logpdf %r' % (
+                                xi.astype(np.int64), gqi, numi), {'x': xi})
         # a 2-D query of several rows, some inside and some outside the bounds: row i must be the value of point i alone
         gp.is_sampling = False
         rows = []
